@@ -108,8 +108,10 @@ Proof.
     + intros Hk. apply map_filter_lookup_Some in Hk as [Hk _]. exact (H2 _ _ Hk).
   - intros k v. rewrite tombs_papply. destruct p; cbn [tombs_after]; try (apply H3).
     + intros Hk. apply lookup_insert_Some in Hk as [[_ <-]|[_ Hk]]; [lia|exact (H3 _ _ Hk)].
-    + case_bool_decide; [apply H3|].
-      intros Hk. apply lookup_insert_Some in Hk as [[_ <-]|[_ Hk]]; [lia|exact (H3 _ _ Hk)].
+    + case_bool_decide.
+      * intros Hk. apply map_filter_lookup_Some in Hk as [Hk _]. exact (H3 _ _ Hk).
+      * intros Hk. apply lookup_insert_Some in Hk as [[_ <-]|[_ Hk]]; [lia|].
+        apply map_filter_lookup_Some in Hk as [Hk _]. exact (H3 _ _ Hk).
     + intros Hk. apply lookup_union_Some_raw in Hk as [Hk|[_ Hk]]; [|exact (H3 _ _ Hk)].
       apply lookup_fmap_Some in Hk as (e0 & <- & _). lia.
     + intros Hk. apply map_filter_lookup_Some in Hk as [Hk _]. exact (H3 _ _ Hk).
